@@ -102,16 +102,22 @@ func (r *positionalRelation) Map(f func(Values) (Value, error)) (Set, error) {
 }
 
 func (r *positionalRelation) Where(p func(Values) (bool, error)) (_ *positionalRelation, err error) {
+	// frozen may call the predicate from several goroutines.
+	var mu sync.Mutex
 	set := r.set.Where(func(elem any) bool {
-		if err != nil {
-			return false
-		}
-		if elem == nil {
+		mu.Lock()
+		failed := err != nil
+		mu.Unlock()
+		if failed || elem == nil {
 			return false
 		}
 		match, err2 := p(elem.(Values))
 		if err2 != nil {
-			err = err2
+			mu.Lock()
+			if err == nil {
+				err = err2
+			}
+			mu.Unlock()
 			return false
 		}
 		return match
